@@ -21,6 +21,9 @@ fn hist(p: Profile) -> DecodeFn {
 
 fn weights(f: impl FnOnce(&mut Weights)) -> Weights {
     let mut w = Weights::uniform();
+    // raw stream tokens (aborted / skipped / malformed sequences, embedded controls) between
+    // the focus operations, so that recogniser state left behind by them is exercised too
+    w.raw = 5;
     f(&mut w);
     w
 }
@@ -240,7 +243,7 @@ pub fn profile_for(id: &str) -> Profile {
             p.w = weights(|w| {
                 w.osc = 30;
                 w.draw = 8;
-                w.raw = 0;
+                w.raw = 6;
             });
             p.via_parser = 256;
             p.chunk = 128;
@@ -270,7 +273,17 @@ const STEP_ASSUME: &[&str] = &[
 
 fn stepper_spec(id: &'static str, rule: &'static str, cases: (u64, u64), mut extra: Vec<Sub>) -> Spec {
     let run = stepper_run(cfg_for(id));
-    let mut subs = vec![gen_sub("gen-history", hist(profile_for(id)), run, cases, 640)];
+    let mut subs = vec![gen_sub("gen-history", hist(profile_for(id)), run.clone(), cases, 640)];
+    // the same bias on wide/tall screens (up to 140x40, widths around 128 and 132) ...
+    let mut large = profile_for(id);
+    large.geoms = gen::GEOMS_LARGE;
+    large.max_ops = 20;
+    subs.push(gen_sub("gen-large-screens", hist(large), run.clone(), (cases.0 / 8, cases.1 / 8), 520));
+    // ... and in long histories on small screens
+    let mut long = profile_for(id);
+    long.geoms = GEOMS_SMALL;
+    long.max_ops = 160;
+    subs.push(gen_sub("gen-long-histories", hist(long), run, (cases.0 / 10, cases.1 / 10), 4000));
     subs.append(&mut extra);
     Spec { id, rule, assumptions: STEP_ASSUME.to_vec(), subs }
 }
@@ -352,6 +365,24 @@ fn c11_decode() -> DecodeFn {
     })
 }
 
+/// large feeds (lengths and cuts around buffer sizes) for the byte-level properties
+fn big_decode(flush: bool) -> DecodeFn {
+    Arc::new(move |s: &mut Src| {
+        let mut ops = Vec::new();
+        if s.chance(40) {
+            ops.push(Op::SelCharset("@".into()));
+        }
+        let b = gen::big_bytes(s, 6);
+        for ch in gen::big_chunking(s, &b) {
+            ops.push(Op::FeedBytes(ch));
+        }
+        if flush {
+            ops.push(Op::FeedBytes(b"x".to_vec()));
+        }
+        Case { cols: 20, lines: 4, ops }
+    })
+}
+
 fn c01_decode_stream() -> DecodeFn {
     Arc::new(|s: &mut Src| {
         let (cols, lines) = gen::geometry(s, GEOMS_ALL);
@@ -418,9 +449,11 @@ pub fn spec(id: &str) -> Option<Spec> {
                 let mut b = gen_sub("gen-api", c01_decode_api(), run.clone(), (160_000, 6_000_000), 700);
                 // replays (and crash attribution) run the case alone in a child process, so
                 // that aborts, stack overflows, hangs and deadlocks are verdicts too
+                let mut c = gen_sub("gen-big-feeds", big_decode(false), run.clone(), (320, 12_000), 200);
                 a.replay = crate::runner::isolated(run.clone());
-                b.replay = crate::runner::isolated(run);
-                vec![a, b]
+                b.replay = crate::runner::isolated(run.clone());
+                c.replay = crate::runner::isolated(run);
+                vec![a, b, c]
             },
         },
         "C02" => Spec {
@@ -429,7 +462,10 @@ pub fn spec(id: &str) -> Option<Spec> {
             assumptions: vec!["model-free: compares the implementation with itself"],
             subs: {
                 let run: RunFn = Arc::new(|c: &Case| run_c02(c));
-                let mut v = vec![gen_sub("gen-chunking", c02_decode(), run.clone(), (120_000, 4_000_000), 700)];
+                let mut v = vec![
+                    gen_sub("gen-chunking", c02_decode(), run.clone(), (120_000, 4_000_000), 700),
+                    gen_sub("gen-big-feeds", big_decode(false), run.clone(), (320, 12_000), 200),
+                ];
                 v.extend(exh::c02_subs(run));
                 v
             },
@@ -496,7 +532,10 @@ pub fn spec(id: &str) -> Option<Spec> {
             assumptions: vec!["the reference decoder is std::str::from_utf8 driven (maximal-subpart U+FFFD); one leading BOM is ignored on both sides"],
             subs: {
                 let run: RunFn = Arc::new(|c: &Case| run_c11(c));
-                let mut v = vec![gen_sub("gen-bytes", c11_decode(), run.clone(), (150_000, 5_000_000), 500)];
+                let mut v = vec![
+                    gen_sub("gen-bytes", c11_decode(), run.clone(), (150_000, 5_000_000), 500),
+                    gen_sub("gen-big-feeds", big_decode(true), run.clone(), (800, 30_000), 200),
+                ];
                 v.extend(exh::c11_subs(run));
                 v
             },
